@@ -365,3 +365,35 @@ def harness_stage(rep):
                                     output=out[-3000:]), no_input=True)
     build_iotrace()
     return ok
+
+
+def config_stage(rep, rng, n, root):
+    """the configuration a check asks for is the configuration the store gets: the harness builds every configuration from
+    its serialised form; here the same settings are also applied with the builder methods of `Config` and the two results
+    compared field by field (`cfgcheck`)"""
+    lines = ["dir cfg"]
+    for _ in range(n):
+        toks = []
+        if rng.random() < 0.8: toks.append(f"mfs={rng.choice([0, 1, 60, 300, 9000, 65536, 2**31, 2**40])}")
+        if rng.random() < 0.6: toks.append(f"cache={rng.choice([0, 1, 2, 256, 1000])}")
+        if rng.random() < 0.6: toks.append(f"pool={rng.choice([1, 2, 4, 64])}")
+        if rng.random() < 0.6: toks.append(f"frag={rng.choice(['0/1', '1/8', '2/5', '1/2', '1/1'])}")
+        if rng.random() < 0.6: toks.append(f"dead={rng.choice([0, 50, 134217728, 1099511627776])}")
+        if rng.random() < 0.6: toks.append(f"small={rng.choice([0, 100, 10485760, 1099511627776])}")
+        if rng.random() < 0.6: toks.append(f"interval={rng.choice([1, 40, 180000, 3600000])}")
+        if rng.random() < 0.6: toks.append(f"jitter={rng.choice(['0/1', '3/10', '1/2', '1/1'])}")
+        if rng.random() < 0.6: toks.append(f"tfrag={rng.choice(['0/1', '3/5', '7/8', '1/1'])}")
+        if rng.random() < 0.6: toks.append(f"tdead={rng.choice([0, 50, 536870912, 1099511627776])}")
+        if rng.random() < 0.5: toks.append(f"sync={rng.choice(['none', 'always', '20', '60000'])}")
+        if rng.random() < 0.5: toks.append(f"policy={rng.choice(['never', 'always', 'window:3-9'])}")
+        lines.append("cfgcheck " + " ".join(toks))
+    try:
+        ans = run_harness(["store", "--root", root], lines, timeout=120)
+    except Died as d:
+        rep.violation("oracle", dict(what=f"building a configuration killed the process ({d.why})", script=lines[:len(d.answered) + 1][-2:]))
+        return
+    rep.count("configurations_built_both_ways", n)
+    for l, a in zip(lines[1:], ans[1:]):
+        if a != "same":
+            rep.violation("correspondence", dict(what="a configuration built with the builder methods is not the configuration its serialised form gives: a setting does not arrive where it is meant to", script=[l], expected="same", observed=a[:1500]))
+            break
